@@ -6,6 +6,7 @@
 package vx
 
 import (
+	"bytes"
 	"crypto/sha256"
 	"encoding/hex"
 	"encoding/json"
@@ -20,6 +21,7 @@ import (
 	"strconv"
 	"strings"
 	"sync"
+	"syscall"
 	"time"
 )
 
@@ -377,8 +379,28 @@ func Main(spec CheckSpec, args []string) int {
 				defer wg.Done()
 				cmd := exec.Command(os.Args[0], os.Args[1:]...)
 				cmd.Env = append(os.Environ(), fmt.Sprintf("VX_SHARD=%d/%d", i, n), "VX_OUT="+outs[i], "GOMAXPROCS=2")
-				b, err := cmd.CombinedOutput()
-				logs[i], errs[i] = b, err
+				var buf bytes.Buffer
+				cmd.Stdout, cmd.Stderr = &buf, &buf
+				err := cmd.Start()
+				if err == nil {
+					done := make(chan error, 1)
+					go func() { done <- cmd.Wait() }()
+					select {
+					case err = <-done:
+					case <-time.After(bud + 120*time.Second):
+						// a shard that outlives its internal deadline by two minutes is stuck: ask
+						// the Go runtime for a goroutine dump and give up on it
+						cmd.Process.Signal(syscall.SIGQUIT)
+						select {
+						case err = <-done:
+						case <-time.After(20 * time.Second):
+							cmd.Process.Kill()
+							err = <-done
+						}
+						err = fmt.Errorf("shard stuck past its deadline (%v)", err)
+					}
+				}
+				logs[i], errs[i] = buf.Bytes(), err
 			}(i)
 		}
 		wg.Wait()
@@ -386,7 +408,12 @@ func Main(spec CheckSpec, args []string) int {
 			raw, err := os.ReadFile(outs[i])
 			if err != nil || errs[i] != nil {
 				tail := string(logs[i])
-				if len(tail) > 3000 {
+				if i := strings.Index(tail, "goroutine 1 "); i >= 0 {
+					tail = tail[i:]
+					if len(tail) > 6000 {
+						tail = tail[:6000]
+					}
+				} else if len(tail) > 3000 {
 					tail = tail[len(tail)-3000:]
 				}
 				merged.HarnessError(fmt.Sprintf("shard %d died: %v\n%s", i, errs[i], tail))
